@@ -143,8 +143,9 @@ class AIGPBase(Attribute):
 
     @classmethod
     def unpack_attribute(cls, data: Buffer, negotiated: Negotiated) -> Attribute:
-        if not negotiated.aigp:
-            # AIGP must only be accepted on configured sessions
+        if not negotiated.aigp and not negotiated.is_ibgp:
+            # AIGP must only be accepted on configured sessions; as for sending (pack_attribute), an IBGP
+            # session counts as configured (RFC 7311 3.1: AIGP_SESSION is enabled by default on IBGP)
             return Discard(cls.ID)
         return cls.from_packet(data)
 
